@@ -147,6 +147,10 @@ def gen_series(r, tier='quick', **force):
                 files.append({'id': fid, 's': s, 't': t, 'v': v, 'ipp': ipp, 'meta': meta,
                               'base': 100 * fid})
                 fid += 1
+    bits, signed = r.choice([16, 16, 12]), r.random() < 0.2
+    maxpix = 100 * (len(files) - 1) + rows * cols
+    if maxpix >= (1 << (bits - (1 if signed else 0))):
+        bits = 16       # the labelled pixel values must be representable in BitsStored
     if acq_pat == 'partial' and len(files) > 1:
         # only some of the files say when they were acquired
         for f in r.sample(files, r.randint(1, len(files) - 1)):
@@ -154,7 +158,7 @@ def gen_series(r, tier='quick', **force):
     return {'op': 'stack', 'S': S, 'T': T, 'V': V, 'orient': oname, 'iop': list(map(float, rowc)) + list(map(float, colc)),
             'rows': rows, 'cols': cols, 'spacing': spacing, 'gap': gap, 'origin': origin,
             'ordering': ordering, 'files': files, 'patterns': patterns, 'acq': acq_pat, 'tr': tr_pat, 'pe': pe, 'shear': shear, 'hdr': hdr,
-            'bits_stored': r.choice([16, 16, 12]), 'signed': r.random() < 0.2}
+            'bits_stored': bits, 'signed': signed}
 
 
 def pixels_of(series, f):
